@@ -8,13 +8,19 @@
     [entry_xxx : str -> table -> option table] here. *)
 
 From Coq Require Import List Ascii String ZArith Bool.
-From Shexer Require Import Lib.PyStr Model.Table Model.EntryC20.
+From Shexer Require Import Lib.PyStr Model.Table Model.EntryC20 Model.EntryPipe.
+From Shexer Require Import Model.EntryBin64.
+From Shexer Require Import Model.EntryC17.
+From Shexer Require Import Model.EntryC11.
+From Shexer Require Import Model.EntryC10.
+From Shexer Require Import Model.EntryC16.
+From Shexer Require Import Model.EntryC05.
 From Shexer Require Import Model.EntryC18.
 From Shexer Require Import Model.EntryC19.
 Import ListNotations.
 
 Definition entries : list (str -> table -> option table) :=
-  [entry_c20; entry_c18; entry_c19].
+  [entry_c20; entry_pipe; entry_bin64; entry_c17; entry_c11; entry_c10; entry_c16; entry_c05; entry_c18; entry_c19].
 
 Fixpoint dispatch (l : list (str -> table -> option table)) (name : str) (t : table) : table :=
   match l with
